@@ -101,6 +101,7 @@ var rec = ev.New("c06/listener", "rapid sequences of requests {basic, interleave
 type endp struct {
 	name, client string
 	ex           func(req ntp.Packet) (*reply, error)
+	mayBeIgnored bool // a sender the listener need not serve at all (not an IP host); if it does, the oracle applies
 }
 
 func TestPropListener(t *testing.T) {
@@ -112,25 +113,38 @@ func TestPropListener(t *testing.T) {
 	listenerBody(t, eps, rec, 250, 2500)
 }
 
-var recS = ev.New("c06/listener-scion", "as c06/listener for the real SCION listener: 6 senders (own 'previous hop' sockets) for 4 client identities = {2 ISD-ASes} x {2 host addresses}, so that clients that differ only in their ISD-AS, or only in their host, cite each other's receive timestamps; requests wrapped into SCION/UDP packets over an empty or a one-segment path. Same relational oracle, with the client identity = (ISD-AS, host)")
+var recS = ev.New("c06/listener-scion", "as c06/listener for the real SCION listener: 8 senders (own 'previous hop' sockets) for 6 client identities = {2 ISD-ASes} x {2 host addresses} plus, per ISD-AS, a SCION service address with the same four bytes as the first host address (need not be served; if it is, it is a client of its own), so that clients that differ only in their ISD-AS, only in their host, or only in their address type cite each other's receive timestamps; requests wrapped into SCION/UDP packets over an empty or a one-segment path. Same relational oracle, with the client identity = (ISD-AS, host)")
 
 func TestPropListenerSCION(t *testing.T) {
 	ias := []addr.IA{addr.MustIAFrom(1, 0xff0000000111), addr.MustIAFrom(2, 0xff0000000222)}
 	hosts := []netip.Addr{netip.MustParseAddr("10.3.3.1"), netip.MustParseAddr("10.3.3.2")}
 	var eps []endp
-	for i := 0; i < 6; i++ {
+	for i := 0; i < 8; i++ {
 		hop, err := net.ListenUDP("udp", netlab.UDPAddr(netlab.Addr(3), 0))
 		if err != nil {
 			vt.Inconclusive(t, "bind: %v", err)
 		}
 		defer hop.Close()
 		ia, host := ias[i%2], hosts[i/2%2]
+		if i >= 6 {
+			// a SCION service address with the same four bytes as a host address: another endpoint in the same AS
+			ia, host := ias[i%2], hosts[0]
+			eps = append(eps, endp{name: fmt.Sprintf("%v,svc:%v#%d", ia, host, i), client: fmt.Sprintf("%v,svc:%v", ia, host), mayBeIgnored: true,
+				ex: func(req ntp.Packet) (*reply, error) { return exchangeSCIONType(hop, ia, host, true, req) }})
+			continue
+		}
 		eps = append(eps, endp{name: fmt.Sprintf("%v,%v#%d", ia, host, i), client: fmt.Sprintf("%v,%v", ia, host), ex: func(req ntp.Packet) (*reply, error) { return exchangeSCION(hop, ia, host, req) }})
 	}
 	listenerBody(t, eps, recS, 150, 1500)
 }
 
 func exchangeSCION(hop *net.UDPConn, ia addr.IA, host netip.Addr, req ntp.Packet) (*reply, error) {
+	return exchangeSCIONType(hop, ia, host, false, req)
+}
+
+var errIgnored = fmt.Errorf("no reply")
+
+func exchangeSCIONType(hop *net.UDPConn, ia addr.IA, host netip.Addr, svc bool, req ntp.Packet) (*reply, error) {
 	b := make([]byte, 48)
 	ntp.EncodePacket(&b, &req)
 	ps := wire.PathSpec{Kind: "empty"}
@@ -147,13 +161,20 @@ func exchangeSCION(hop *net.UDPConn, ia addr.IA, host netip.Addr, req ntp.Packet
 	if err != nil {
 		return nil, err
 	}
+	name := fmt.Sprintf("%v,%v", ia, host)
+	attempts := 4
+	if svc {
+		raw[9] = raw[9]&0xf0 | 0x4 // source address type: service, length 4
+		name = fmt.Sprintf("%v,svc:%v", ia, host)
+		attempts = 1
+	}
 	buf := make([]byte, 4096)
-	for attempt := 0; attempt < 4; attempt++ {
+	for attempt := 0; attempt < attempts; attempt++ {
 		sent := netlab.Now()
 		if _, err := hop.WriteToUDP(raw, scionAddr); err != nil {
 			return nil, err
 		}
-		hop.SetReadDeadline(time.Now().Add(400 * time.Millisecond))
+		hop.SetReadDeadline(time.Now().Add(map[bool]time.Duration{false: 400 * time.Millisecond, true: 60 * time.Millisecond}[svc]))
 		for {
 			n, _, err := hop.ReadFromUDP(buf)
 			if err != nil {
@@ -174,11 +195,17 @@ func exchangeSCION(hop *net.UDPConn, ia addr.IA, host netip.Addr, req ntp.Packet
 			if d, _ := p.DstAddr(); p.SCION.DstIA != ia || d != host {
 				return nil, fmt.Errorf("reply addressed to %v,%v instead of %v,%v", p.SCION.DstIA, d, ia, host)
 			}
-			r := &reply{client: fmt.Sprintf("%v,%v", ia, host), sent: sent, h: h, req: req, rsp: rsp}
+			if svc != (p.SCION.DstAddrType == 0x4) {
+				return nil, fmt.Errorf("reply addressed to address type %v", p.SCION.DstAddrType)
+			}
+			r := &reply{client: name, sent: sent, h: h, req: req, rsp: rsp}
 			r.rx = ntp.TimeFromTime64(rsp.ReceiveTime, h)
 			r.tx = ntp.TimeFromTime64(rsp.TransmitTime, h)
 			return r, nil
 		}
+	}
+	if svc {
+		return nil, errIgnored
 	}
 	return nil, fmt.Errorf("no reply after 4 attempts")
 }
@@ -227,6 +254,11 @@ func listenerBody(t *testing.T, eps []endp, rec *ev.Recorder, nq, nth int) {
 				req.ReceiveTime = req.TransmitTime
 			}
 			r, err := ep.ex(req)
+			if err == errIgnored && ep.mayBeIgnored {
+				log = append(log, fmt.Sprintf("%s from %s -> not served", kind, ep.name))
+				rec.Label("service-address-sender-not-served")
+				continue
+			}
 			if err != nil {
 				t.Fatalf("well-formed request not answered: %v (history %v)", err, log)
 			}
